@@ -418,8 +418,18 @@ def main(modname):
                     return 2
                 results.append(r[1])
         else:
+            # a worker that dies (fatal interpreter error, kill) loses its task and imap would wait for ever: every task
+            # result has to arrive within a generous limit, otherwise the run is a harness error, never a silent hang
+            limit = float(os.environ.get("VERIF_TASK_TIMEOUT", "1500" if ns.tier == "quick" else "10800"))
             with _pool(min(ns.jobs, len(tasks))) as pool:
-                for r in pool.imap_unordered(_worker, [(modname, t) for t in tasks], chunksize=1):
+                it = pool.imap_unordered(_worker, [(modname, t) for t in tasks], chunksize=1)
+                for _ in tasks:
+                    try:
+                        r = it.next(timeout=limit)
+                    except mp.TimeoutError:
+                        sys.stderr.write(f"HARNESS ERROR: no task finished within {limit:.0f} s (a worker process may have died)\n")
+                        pool.terminate()
+                        return 2
                     if r[0] == "err":
                         sys.stderr.write("HARNESS ERROR in " + r[1] + "\n")
                         pool.terminate()
